@@ -62,6 +62,14 @@ OpTable ==
           NoOperand("stack_value", 159), NoOperand("GNU_push_tls_address", 224) >>
     \* DW_OP_GNU_uninit (0xf0) is left out: libdw itself rejects it ("invalid DWARF")
 
+\* Attributes of the classes exprloc / loclistptr (DWARF 4, figure 20; in DWARF 2 and 3: block / loclistptr):
+\* whatever form stores them, their value is a location -- one element per address range.
+LocAttrs == <<
+    [at |-> "location", code |-> 2], [at |-> "string_length", code |-> 25], [at |-> "return_addr", code |-> 42],
+    [at |-> "data_member_location", code |-> 56], [at |-> "frame_base", code |-> 64], [at |-> "segment", code |-> 70],
+    [at |-> "static_link", code |-> 72], [at |-> "use_location", code |-> 74], [at |-> "vtable_elem_location", code |-> 77],
+    [at |-> "data_location", code |-> 80] >>
+
 Values(op) ==
     CASE op.cls = "none" -> <<>>
       [] op.cls = "u" -> <<[kind |-> "dec", v |-> op.args[1]]>>
